@@ -69,7 +69,7 @@ def C07(ctx):
     big = ctx.export(G(4, 'f', ('set',)), pre_sample=400 if ctx.quick else None)
     ctx.run(big, nontrivial=cyc, runtime=False)
     ctx.rules.append('split: the providers of every digraph (n=3; sample of n=4 in thorough) distributed over two sets joined by a set without providers of its own; '
-                     'scaling: diamond lattices of depth 10/20/40 (2^40 paths) and chains of depth 50/150, with and without a back edge, each under a 40 s timeout (normal: well under 1 s)')
+                     'scaling: diamond lattices of depth 10/20/40 (2^40 paths) and chains of depth 50/150, with and without a back edge, each under a 20 s timeout (normal: well under 1 s)')
     sp = ctx.export('FamilyGSplit(p, 3)', pre_sample=500 if ctx.quick else None)
     ctx.run(sp, nontrivial=cyc, runtime=False)
     if not ctx.quick:
@@ -281,6 +281,17 @@ def C20(ctx):
     ctx.run(only_success(ctx.export('FamilyT(p)')), runtime=False, check=True, build=False)
 
 
+def C13(ctx):
+    ctx.rules.append('family E (WireValueExpr): a typed grammar of initialiser expressions - 62 atoms (literals, composite literals of every kind, identifiers exported/unexported/constant, conversions, '
+                     'selectors, indexing, 2- and 3-index slicing, dereference, address-of, type assertion, method values, and the forbidden forms: calls of functions / methods / func variables / literals, new, channel receive) '
+                     'wrapped in one more (depth 2) or two more (depth 3, thorough) layers of operators, conversions, composite literals, selectors, index and slice expressions; each placed in a set of the injector package and of another package; '
+                     'wire.Value and wire.InterfaceValue; non-trivial = every case; judge: MustReject (calls / receives / inaccessible identifiers / interface-typed wire.Value) => rejected with a diagnostic; '
+                     'accepted => the package builds, both injector calls return one value (one pointer), equal to the expression evaluated in its home package (descriptions incl. slice capacity and pointer ordinals)')
+    cases = ctx.export('FamilyE(p, %d)' % (2 if ctx.quick else 3), extends='WireValueExpr', caseop='CaseE', pre_sample=None if ctx.quick else 9000)
+    ctx.res.cov['exhaustive'] = ctx.quick
+    ctx.run(cases, runtime=False, notes=True, build=True)
+
+
 def C14(ctx):
     ctx.rules.append('family N (WireNames): one base program (provider in another package returning value+cleanup+error; provider with three arguments, cleanup and error; provider with cleanup; wire.Value; injector parameter) '
                      'with every pair of 12 nameable slots (4 types, foreign type, 3 provider functions, injector parameter, a package-level variable, the other package name, its import alias) renamed to every pair of names of an adversarial pool '
@@ -318,6 +329,7 @@ PROPS = {
     'C10': dict(fn=C10, level='model_checking'),
     'C11': dict(fn=C11, level='model_checking'),
     'C12': dict(fn=C12, level='model_checking'),
+    'C13': dict(fn=C13, level='exploration'),
     'C14': dict(fn=C14, level='exploration'),
     'C17': dict(fn=C17, level='model_checking'),
     'C18': dict(fn=C18, level='model_checking'),
